@@ -966,6 +966,11 @@ func (d *Ledger) actDeliver() {
 		delete(d.Pending, string(args[0]))
 		if r != nil && r.Res != "ok" {
 			delete(d.Creator, string(args[0]))
+		} else if holder := d.Creator[string(args[0])]; holder != "" && d.chance(60) {
+			// the new holder uses the role at once: it must continue after the highest nonce ever issued
+			cc := d.call("ESDTNFTCreate", holder, holder, args[0], d.amt(1), metaNames[0], nb(0), metaHashes[0], metaAttrs[0], metaURIs[0])
+			cc.RAE = false
+			d.record("exec", d.shardOfName(holder), cc)
 		}
 	}
 }
